@@ -13,6 +13,7 @@ From SV Require Import Lib.Base Gen.Consts.
 From SV Require Import Model.Seq32 Model.Assembler Model.TcpBuf Model.TcpTypes Model.Tcp.
 From SV Require Import Proofs.TcpSendBase Proofs.TcpSendInv Proofs.TcpLiveBase Proofs.TcpLiveProofs.
 From SV Require Import Proofs.TcpBurstBase Proofs.TcpBurstStep Proofs.TcpBurstEmit Proofs.TcpBurstProofs.
+From SV Require Import Proofs.TcpBurstExamples.
 
 (* One dispatch that emitted a frame (device accepted it) strictly decreases the measure, and the
    hypotheses hold again afterwards (or the socket has forgotten its connection: RST sent). *)
@@ -58,3 +59,32 @@ Theorem C03_tcp_ingress_reply_bounded : forall cx s ip r s' reply tags,
     r_payload (snd p) = [] /\ (r_control (snd p) = CNone \/ r_control (snd p) = CRst).
 Proof. exact tcp_ingress_reply_bounded. Qed.
 Print Assumptions C03_tcp_ingress_reply_bounded.
+
+(* Non-vacuity: a socket reached from tcp_new (connect, SYN, SYN|ACK with MSS option 1 -> clamped to
+   MIN_REMOTE_MSS = 48, Nagle off, 200 octets written) satisfies every hypothesis; the egress loop
+   sends exactly five segments (48, 48, 48, 48, 8 octets) and ends by itself; mu = 7 <= 11. *)
+Theorem C03_tcp_burst_example :
+  binv (bx_cx 1000 1500) ex1 /\
+  s_state ex1 = Established /\ rb_len (s_tx_buffer ex1) = 200 /\ s_remote_mss ex1 = 48 /\
+  mu (bx_cx 1000 1500) ex1 = 7 /\ burst_bound (bx_cx 1000 1500) ex1 = 11 /\
+  ex1_poll = Some ([48; 48; 48; 48; 8], true, 1).
+Proof. exact burst_example. Qed.
+Print Assumptions C03_tcp_burst_example.
+
+(* The hypothesis on the keep-alive interval is necessary: a reachable ESTABLISHED socket that
+   satisfies every other hypothesis, with set_keep_alive(Some(0)), emits a keep-alive on EVERY
+   dispatch - bursts of every length exist (Interface::poll never returns; reproduced on the real
+   socket: `ret LIVELOCK`). *)
+Theorem C03_tcp_burst_keep_alive_zero_refuted :
+  exists cx s, binv_core cx s /\ mtu_ok cx /\ s_keep_alive s = Some 0 /\
+               forall n, exists s', burst_run cx s n s'.
+Proof. exact burst_keep_alive_zero_refuted. Qed.
+Print Assumptions C03_tcp_burst_keep_alive_zero_refuted.
+
+(* The hypothesis on the MTU is necessary: with an interface MTU of 52 and TCP timestamps the
+   effective MSS is 0 and a socket with octets queued emits an empty segment on every dispatch. *)
+Theorem C03_tcp_burst_small_mtu_refuted :
+  exists cx s, binv_core cx s /\ ka_pos s /\ cx_ip_mtu cx = 52 /\ emss cx s = 0 /\
+               forall n, exists s', burst_run cx s n s'.
+Proof. exact burst_small_mtu_refuted. Qed.
+Print Assumptions C03_tcp_burst_small_mtu_refuted.
